@@ -31,6 +31,9 @@ def qvec(rng, n, kind, r=2):
 
 
 def entries(rng, shape, kind):
+    if kind == 'mixed':
+        # per-tensor dtype drawn independently (objects whose sites have different dtypes)
+        kind = str(rng.choice(['complex', 'real', 'int', 'real']))
     if kind == 'complex':
         return rng.normal(size=shape) + 1j * rng.normal(size=shape)
     if kind == 'real':
@@ -142,7 +145,7 @@ def rand_mps(rng, qd, L, profile='random', Dmax=5, kind='complex', q0=0, layout=
         A = entries(rng, shape, kind)
         mask = np.add.outer(np.add.outer(np.asarray(qd), qD[i]), -qD[i + 1])
         A = np.where(mask == 0, A, 0).astype(A.dtype)
-        if kind != 'int':
+        if not np.issubdtype(A.dtype, np.integer):
             A = (A / np.sqrt(d * shape[1])).astype(A.dtype)
         psi.A[i] = A
     return psi
@@ -214,7 +217,7 @@ def rand_mpo(rng, qd, L, Dmax=4, kind='complex', layout='unsorted', boundary=Non
         A = entries(rng, shape, kind)
         mask = np.add.outer(np.add.outer(np.add.outer(qd, -qd), qD[i]), -qD[i + 1])
         op.A[i] = np.where(mask == 0, A, 0).astype(A.dtype)
-        if kind != 'int':
+        if not np.issubdtype(A.dtype, np.integer):
             op.A[i] = (op.A[i] / np.sqrt(d * shape[2])).astype(A.dtype)
     return op
 
@@ -393,3 +396,25 @@ def rand_bipartite(rng, maxn=60):
             perm = rng.permutation(len(edges))
             edges = [edges[i] for i in perm]
     return nu, nv, edges, kind
+
+
+def memory_layout(rng, A, how=None):
+    """The same matrix in a hostile memory layout: Fortran order, a strided view into a larger buffer, a transposed view, negative strides,
+    read-only. Returns (array, label); values are identical to A."""
+    how = how or str(rng.choice(['c', 'fortran', 'strided', 'transposed-view', 'negative-stride', 'readonly']))
+    if how == 'fortran':
+        return np.asfortranarray(A), how
+    if how == 'strided':
+        big = np.zeros((2 * A.shape[0] + 1, 3 * A.shape[1] + 2), dtype=A.dtype)
+        v = big[1:1 + 2 * A.shape[0]:2, 2:2 + 3 * A.shape[1]:3]
+        v[...] = A
+        return v, how
+    if how == 'transposed-view':
+        return np.ascontiguousarray(A.T).T, how
+    if how == 'negative-stride':
+        return np.ascontiguousarray(A[::-1, ::-1])[::-1, ::-1], how
+    if how == 'readonly':
+        B = A.copy()
+        B.flags.writeable = False
+        return B, how
+    return np.ascontiguousarray(A), 'c'
